@@ -175,7 +175,6 @@ package keystore
 //@ func (EncryptorDecryptor).Bytes
 //@   attr trusted
 //@   modifies nothing
-//@   ensures not-a-copy-the-bytes-of-the-key-itself: arr(result) == addr(unbox("*cryptoKey", this).CryptoKey)
 //@ func (EncryptorDecryptor).CopyBytes
 //@   attr trusted
 //@   modifies addr(unbox("*cryptoKey", this).CryptoKey)[*]
